@@ -516,38 +516,84 @@ func GlobalStores(g *ssa.Global) []ssa.Value {
 // `case A, B:` bodies and `x == nil || y == nil` returns.
 func AllPathsGuarded(b *ssa.BasicBlock, ok func(cond ssa.Value, taken bool) bool) bool {
 	entry := b.Parent().Blocks[0]
-	seen := map[*ssa.BasicBlock]bool{}
+	memo := map[*ssa.BasicBlock]int{} // 1 in progress, 2 guarded, 3 not
+	norm := func(cond ssa.Value, taken bool) (ssa.Value, bool) {
+		for {
+			u, isNot := cond.(*ssa.UnOp)
+			if !isNot || u.Op != token.NOT {
+				return cond, taken
+			}
+			cond, taken = u.X, !taken
+		}
+	}
 	var walk func(blk *ssa.BasicBlock) bool
+	var edgeOK func(p, blk *ssa.BasicBlock) bool
+	// condOK: every path that reaches the end of block at with v == taken is guarded.
+	var condOK func(v ssa.Value, taken bool, at *ssa.BasicBlock, depth int) bool
+	condOK = func(v ssa.Value, taken bool, at *ssa.BasicBlock, depth int) bool {
+		if c, isConst := ConstBool(v); isConst {
+			if c != taken {
+				return true // infeasible
+			}
+			return walk(at)
+		}
+		v, taken = norm(v, taken)
+		if ok(v, taken) {
+			return true
+		}
+		// a condition materialised as a boolean phi (x && y, x || y used as a value, as in
+		// the cases of a tagless switch): thread each incoming edge
+		if ph, isPhi := v.(*ssa.Phi); isPhi && ph.Block() == at && depth < 8 {
+			for j, e := range ph.Edges {
+				q := at.Preds[j]
+				if c, isConst := ConstBool(e); isConst {
+					if c != taken {
+						continue
+					}
+					if !edgeOK(q, at) {
+						return false
+					}
+					continue
+				}
+				if condOK(e, taken, q, depth+1) {
+					continue
+				}
+				return false
+			}
+			return true
+		}
+		return walk(at)
+	}
+	edgeOK = func(p, blk *ssa.BasicBlock) bool {
+		if ifi, isIf := p.Instrs[len(p.Instrs)-1].(*ssa.If); isIf && len(p.Succs) == 2 && p.Succs[0] != p.Succs[1] {
+			return condOK(ifi.Cond, p.Succs[0] == blk, p, 0)
+		}
+		return walk(p)
+	}
 	walk = func(blk *ssa.BasicBlock) bool {
 		if blk == entry {
 			return false // reached the entry without a guard
 		}
-		if seen[blk] {
-			return true // loop: decided by the other paths
+		switch memo[blk] {
+		case 1, 2:
+			return true // loop (decided by the other paths) or known
+		case 3:
+			return false
 		}
-		seen[blk] = true
-		if len(blk.Preds) == 0 {
-			return true // unreachable block
-		}
+		memo[blk] = 1
+		res := true
 		for _, p := range blk.Preds {
-			if ifi, isIf := p.Instrs[len(p.Instrs)-1].(*ssa.If); isIf && len(p.Succs) == 2 && p.Succs[0] != p.Succs[1] {
-				cond, taken := ifi.Cond, p.Succs[0] == blk
-				for {
-					u, isNot := cond.(*ssa.UnOp)
-					if !isNot || u.Op != token.NOT {
-						break
-					}
-					cond, taken = u.X, !taken
-				}
-				if ok(cond, taken) {
-					continue
-				}
-			}
-			if !walk(p) {
-				return false
+			if !edgeOK(p, blk) {
+				res = false
+				break
 			}
 		}
-		return true
+		if res {
+			memo[blk] = 2
+		} else {
+			memo[blk] = 3
+		}
+		return res
 	}
 	return walk(b)
 }
